@@ -1711,3 +1711,92 @@ MM("C07", "break-revision-after-carving", [
      "        filter_and_replace_breaks_connected_to_end_events(graph, loop)\n"
      "        sub_graph = detect_loops(sub_graph)\n")],
    "R7.9", "break events revised after the loop body was carved out (seed C07-d)")
+
+# ===================================================== wave e (session 3)
+M("C05", "convert-inside-open", P2P,
+  '''    puml_string = pv_to_puml_string(
+        pv_stream, puml_name, keep_dummy_events, events
+    )
+    with open(puml_file_path, "w") as puml_file:
+        puml_file.write(puml_string)''',
+  '''    with open(puml_file_path, "w") as puml_file:
+        puml_file.write(
+            pv_to_puml_string(pv_stream, puml_name, keep_dummy_events, events)
+        )''', "R5.11",
+  "file truncated before the diagram exists (seed C05-e)")
+M("C16", "memoised-formatter", UT,
+  "def datetime_to_pv_string(date_time: datetime) -> str:",
+  "@__import__('functools').lru_cache(maxsize=4096)\n"
+  "def datetime_to_pv_string(date_time: datetime) -> str:", "R16.4",
+  "formatter memoised on datetime equality (seed C16-e)")
+M("C07", "cut-all-start-in-edges", SGL,
+  "        for in_edge in graph.in_edges(loop.start_events)\n"
+  "        if in_edge[0] not in loop.loop_events\n",
+  "        for in_edge in graph.in_edges(loop.start_events)\n", "R7.10",
+  "inner back edges to the start event are cut (seed C07-e)")
+T("C07", "twin-cut-filter-reordered", SGL,
+  "        if in_edge[0] not in loop.loop_events\n",
+  "        if not (in_edge[0] in loop.loop_events)\n",
+  "same boundary filter, other spelling")
+M("C01", "merge-types-deduplicated", WALK,
+  '''        paths_event_types = [
+            node.event_type
+            for node, merge_node in zip(self.paths, self.merge_nodes)
+            if merge_node == potential_merge_node
+        ]''',
+  '''        paths_event_types = frozenset(
+            node.event_type
+            for node, merge_node in zip(self.paths, self.merge_nodes)
+            if merge_node == potential_merge_node
+        )''', "R1.9", "merge validation forgets repeated event types (seed C01-e)")
+M("C14", "listing-by-glob", MAIN,
+  '''    for root, _, files in os.walk(directory):
+        for file in files:
+            job_files.append(os.path.join(root, file))''',
+  '''    import glob
+    job_files = sorted(
+        path
+        for path in glob.iglob(os.path.join(directory, "**"), recursive=True)
+        if os.path.isfile(path)
+    )''', "R14.6", "job folder path read as a glob pattern (seed C14-e)")
+T("C14", "twin-listing-by-escaped-glob", MAIN,
+  '''    for root, _, files in os.walk(directory):
+        for file in files:
+            job_files.append(os.path.join(root, file))''',
+  '''    import glob
+    job_files = sorted(
+        path
+        for path in glob.iglob(
+            os.path.join(glob.escape(directory), "**"), recursive=True
+        )
+        if os.path.isfile(path)
+    )''', "glob on the escaped path")
+_BW = '''    def include_stored_spans_in_timestamp_bounds(self) -> None:
+        with self.session as session:
+            stored_min, stored_max = session.execute(
+                sa.select(
+                    sa.func.min(NodeModel.start_timestamp),
+                    sa.func.max(NodeModel.end_timestamp),
+                )
+            ).one()
+        if stored_min is not None:
+            self._min_timestamp = min(self._min_timestamp, stored_min)
+            self._max_timestamp = max(self._max_timestamp, stored_max)
+
+    def find_unique_graphs(self) -> dict[str, set[str]]:'''
+M("C15", "bounds-from-store", SQL,
+  "    def find_unique_graphs(self) -> dict[str, set[str]]:", _BW, "R15.8",
+  "tracked bounds widened from the (trimmed) store (seed C15-e)")
+M("C11", "bounds-from-store", SQL,
+  "    def find_unique_graphs(self) -> dict[str, set[str]]:", _BW, "R11.8",
+  "tracked bounds widened from the (trimmed) store (seed C15-e)")
+M("C08", "try-around-trace-loop", SEQ, _JM_OLD,
+  '''    try:
+        for job_group in job_id_streams:
+            yield convert_otel_event_stream_to_event_id_to_otelevent_map(
+                job_group
+            )
+    except OTelTreeDisconnectedError:
+        for _ in ():
+            LOGGER.warning(''', "R8.10",
+  "one broken trace ends the sequencing of its workflow (seed C08-e)")
